@@ -211,7 +211,7 @@ PROPS = {
         theorems=["Orbit.C14.address_root_is_the_manifest", "Orbit.C14.different_inputs_different_addresses",
                   "Orbit.C14.printed_address_parses_back", "Orbit.C14.accepted_names", "Orbit.C14.create_over_existing_is_refused",
                   "Orbit.C14.local_only_open_of_unknown_is_refused", "Orbit.C14.open_yields_recorded_type_and_write_list",
-                  "Orbit.C14.create_then_open_anywhere", "Orbit.C14.create_address_is_determined_by_inputs", "Orbit.C14.pinned_tree_answered_a_foreign_address", "Orbit.C14.accepted_address_prints_as_the_same_database", "Orbit.C14.climbing_address_was_opened_as_another_database_before_the_fix", "Orbit.C14.misnamed_address_is_refused", "Orbit.C14.created_address_is_named"],
+                  "Orbit.C14.create_then_open_anywhere", "Orbit.C14.create_address_is_determined_by_inputs", "Orbit.C14.pinned_tree_answered_a_foreign_address", "Orbit.C14.accepted_address_prints_as_the_same_database", "Orbit.C14.climbing_address_was_opened_as_another_database_before_the_fix", "Orbit.C14.misnamed_address_is_refused", "Orbit.C14.created_address_is_named", "Orbit.C14.opened_database_exists_locally"],
         families=[("address", 80, 2500, 10)],
         corr_fields={"values", "idx", "create", "open", "addr", "pathjoin"},
         nontrivial=lambda lines: sum(1 for l in lines if l.startswith(("detaddr ", "created ", "opened ", "parsed "))) >= 3,
@@ -289,7 +289,7 @@ MANIFEST_TEXT = {
         note="Trusted: Lean kernel + standard axioms; the JSON codec of one entry is a parameter with a left inverse (sampled by the harness); the unixfs file layer is a fake that stores files whole; the fetcher's contract (it returns the ancestry of the heads it is given, from blocks the node holds) is a hypothesis of the fetching-loader theorems - a snapshot is NOT self-contained in this port: a node without the blocks needs the network to load it.",
         technique="Lean 4 proof (codec round-trip by induction; rebuilt log joins to the same entries/order/heads) with differential correspondence on real save/load"),
     "C14": dict(
-        text="Kernel-checked theorems over a segment-list model of Go's path.Join/Clean: the address answered names the manifest the inputs were hashed into; with an injective manifest hash different (name, type, access controller) give different addresses; every answered address prints and parses back to itself; the accepted names are characterised exactly; over a model of Create/Open written in the order of the Go code: creating over an existing local database is refused unless overwrite, a local-only open of an unknown database is refused, an open yields the recorded type and write list whatever options are passed, and what Create returned is what every later Open returns on this and on any other instance. The pinned tree answered another database's address for a climbing name (decide-checked witness, replayed on the real code before the fix: commit). Whatever string Open accepts as an address prints as an address of the same database (address.Parse refuses a path that climbs out of its root: finding F28, fix: commit, with a decide-checked witness of the old split). The address family compares DetermineAddress/Create/Open/Parse on 2-3 real peers with the model over adversarial names, store types, write lists and user-supplied address spellings. Behind the hash of a manifest only the name recorded in it opens (Open model with the name test: a misnamed address is refused whatever the options, the address Create returns always passes; finding F52, fix: commit - any path behind a manifest hash opened as a database of its own; the driver requires the address of every opened store to be the address its root's manifest was created for).",
+        text="Kernel-checked theorems over a segment-list model of Go's path.Join/Clean: the address answered names the manifest the inputs were hashed into; with an injective manifest hash different (name, type, access controller) give different addresses; every answered address prints and parses back to itself; the accepted names are characterised exactly; over a model of Create/Open written in the order of the Go code: creating over an existing local database is refused unless overwrite, a local-only open of an unknown database is refused, an open yields the recorded type and write list whatever options are passed, and what Create returned is what every later Open returns on this and on any other instance. The pinned tree answered another database's address for a climbing name (decide-checked witness, replayed on the real code before the fix: commit). Whatever string Open accepts as an address prints as an address of the same database (address.Parse refuses a path that climbs out of its root: finding F28, fix: commit, with a decide-checked witness of the old split). The address family compares DetermineAddress/Create/Open/Parse on 2-3 real peers with the model over adversarial names, store types, write lists and user-supplied address spellings. Behind the hash of a manifest only the name recorded in it opens (Open model with the name test: a misnamed address is refused whatever the options, the address Create returns always passes; finding F52, fix: commit - any path behind a manifest hash opened as a database of its own; the driver requires the address of every opened store to be the address its root's manifest was created for). A database obtained through Open exists locally from then on (proved on the Open model: a later local-only Open succeeds with the same type and write list; finding F53, fix: commit - only Create used to record it), and Create/Open no longer write into the caller's options (finding F54, fix: commit - 'open or create' left Overwrite=true behind; `reuseopts` step in the address family).",
         note="Trusted: Lean kernel + standard axioms; injectivity of the manifest CID (hash + dag-cbor) is a hypothesis; the Create/Open model is hand-written (its abstractions are listed at the top of Model/OpenCreate.lean) and run against the real instance on every create/open of the address family; only the default ipfs access controller is modelled.",
         technique="Lean 4 proof (path cleaning lemmas, parse/print inverse, injectivity) with differential correspondence over adversarial names"),
     "C15": dict(
